@@ -234,7 +234,7 @@ func (g *qGen) genBucket(w *qWorld) qQuery {
 	case 0: // GROUP BY
 		src := g.source(w, g.r.Intn(2))
 		cols := shiftCols(src.cols)
-		nk := 1 + g.r.Intn(2)
+		nk := 1 + g.r.Intn(3)
 		var keys, ckeys, items, citems []string
 		for i := 0; i < nk; i++ {
 			var e qE
@@ -256,6 +256,25 @@ func (g *qGen) genBucket(w *qWorld) qQuery {
 		q.sql = "SELECT " + strings.Join(items, ", ") + " FROM " + src.sql + " GROUP BY " + strings.Join(keys, ", ")
 		q.coq = fmt.Sprintf("(Q (BSelect %s None (Some %s) None %s false) [] None None)", src.coq, coqList(ckeys), coqList(citems))
 		q.shape = "group-by"
+		if g.r.Intn(4) == 0 {
+			// SELECT DISTINCT over a grouped view: one row per group first, then the duplicates among these rows go -
+			// which matters when not all keys are selected (or a key is an expression that is not selected)
+			var ditems, dcitems []string
+			for i, k := range ckeys {
+				if strings.HasPrefix(k, "(ECol") && (len(ditems) == 0 || g.r.Intn(2) == 0) {
+					ditems, dcitems = append(ditems, keys[i]), append(dcitems, "SExpr "+k)
+				}
+			}
+			if len(ditems) > 0 {
+				if g.r.Intn(3) == 0 {
+					a := g.aggItem(cols)
+					ditems, dcitems = append(ditems, a.sql), append(dcitems, a.coq)
+				}
+				q.sql = "SELECT DISTINCT " + strings.Join(ditems, ", ") + " FROM " + src.sql + " GROUP BY " + strings.Join(keys, ", ")
+				q.coq = fmt.Sprintf("(Q (BSelect %s None (Some %s) None %s true) [] None None)", src.coq, coqList(ckeys), coqList(dcitems))
+				q.shape = "group-by-distinct"
+			}
+		}
 		if src.joins > 0 {
 			q.mode = 1 // bucket order follows the join order, which the property does not fix
 		}
